@@ -5,6 +5,8 @@ func propTiers(id string) (tierConf, tierConf) {
 	switch id {
 	case "C20":
 		return tierConf{Runs: 24000, BudgetS: 60, ShrinkS: 40, DetRuns: 24}, tierConf{Runs: 1_000_000, BudgetS: 900, ShrinkS: 120, DetRuns: 100}
+	case "C02":
+		return tierConf{Runs: 30000, BudgetS: 60, ShrinkS: 60, DetRuns: 24}, tierConf{Runs: 5_000_000, BudgetS: 900, ShrinkS: 180, DetRuns: 100}
 	case "C14":
 		return tierConf{Runs: 60000, BudgetS: 60, ShrinkS: 30, DetRuns: 32}, tierConf{Runs: 2_000_000, BudgetS: 900, ShrinkS: 120, DetRuns: 200}
 	case "C15":
